@@ -161,6 +161,11 @@ def run(ctx):
     space = g.json_lines("SCN ")
     space.sort(key=lambda s: json.dumps(s, sort_keys=True))
     rnd = random.Random(ctx.seed)
+    if ctx.replay and "fired" in json.load(open(ctx.replay)).get("scenario", {}):   # written by the process-protocol leg
+        import c11
+        binp = ctx.go_test_bin("internal/app/connectconformance", ["c11", "peers"], race=True)
+        c11.process_protocol(ctx, binp, only=[json.load(open(ctx.replay))["scenario"]["kind"]])
+        return
     if ctx.replay and "schedule" in json.load(open(ctx.replay)).get("scenario", {}):   # written by the multiplexer leg
         import c10
         c10.run(ctx)
